@@ -1,6 +1,7 @@
 package props
 
 import (
+	"fmt"
 	"strings"
 	"testing"
 
@@ -169,7 +170,7 @@ func TestC09(t *testing.T) {
 
 func TestC10(t *testing.T) {
 	RunSeq(t, SeqCheck{
-		Prop: "C10", FaultPct: 4,
+		Prop: "C10", FaultPct: 4, TolerateResidue: true, // "every pre-state" includes what a crash left
 		Profile: Profile{Name: "failing-commands", Weights: weightsWith(map[string]int{"set": 34, "new_task": 22, "sequence": 16, "plan": 6, "claim_id": 8, "new_epic": 5}),
 			BadRef: 25, Spoil: 45, Results: 25, HoldLock: 6, MinSteps: 6, MaxSteps: 30},
 		Rule: "random command histories in which about half the commands are built to fail (bad state value, blank title, unknown key, malformed / double JSON, unknown / pruned id, illegal transition, missing claim, cycle, self / cross-kind edge, bad result path or summary, lock held by the harness); non-trivial = a failing command that carries >= 2 fields or edges, or targets an existing item" + distinctRule,
@@ -297,6 +298,29 @@ func TestC16(t *testing.T) {
 				return false
 			})
 			return ok && anyStep(h, func(s stepInfo) bool { return !s.Out.Accepted })
+		},
+		// every seventh step (no random choice: replays do the same) a --json command is run
+		// whose stdout cannot take a single byte: it cannot have written its one JSON value,
+		// so it must not report success
+		AfterStep: func(rt *rapid.T, w *World, h []stepInfo) []Violation {
+			if len(h)%7 != 3 {
+				return nil
+			}
+			var viol []Violation
+			cmds := [][]string{{"--json", "list", "--all"}, {"--json", "where"}}
+			if last := h[len(h)-1].Out.Post; last != nil && len(last.Items) > 0 {
+				cmds = append(cmds, []string{"--json", "show", last.SortedIDs()[0]})
+			}
+			c := w.At(CloneStore(w.Root, "c16full"))
+			defer RemoveAll(c.Root)
+			cmds = append(cmds, []string{"--json", "new", "task", "--title", "written to a full device"}, []string{"--json", "prune"})
+			for _, a := range cmds {
+				r := Run(Cmd{Args: a, Dir: c.Root, StdoutFull: true})
+				if r.OK() {
+					viol = append(viol, Violation{"C16", fmt.Sprintf("`%s` with stdout on /dev/full (no byte can be written) exits 0: it reports success without having written its JSON value (stderr %q)", strings.Join(a, " "), clip(r.Stderr, 120))})
+				}
+			}
+			return viol
 		},
 	})
 }
